@@ -55,8 +55,9 @@ package coordinate
 //@ end
 //@ func magnitude(vec []float64) (m float64)
 //@   requires dims: wfVec(vec)
-//@   loop 1 vars ri=rangeindex int
-//@   loop 1 invariant scanning [C20]: -1 <= ri
+//@   ensures non_negative [C21]: m >= 0
+//@   loop 1 vars ri=rangeindex int, sum float64
+//@   loop 1 invariant scanning [C20,C21]: -1 <= ri && sum >= 0
 //@ end
 
 //@ func unitVectorAt(rng *rand.Rand, vec1 []float64, vec2 []float64) (unit []float64, mag float64)
@@ -90,11 +91,19 @@ package coordinate
 //@   requires wf: c != nil && other != nil
 //@   ensures same_dimension [C20,C21]: ok == (len(c.Vec) == len(other.Vec))
 //@ end
+// ---------------------------------------------------------------- round-trip time estimates (C21, over the reals)
+// the estimate is the Euclidean distance plus both heights, so at least the heights; with non-negative heights it is
+// non-negative whatever the adjustments are (they are applied only when the adjusted value stays positive)
 //@ func (c *Coordinate) rawDistanceTo(other *Coordinate) (d float64)
 //@   requires wf: wfCoord(c) && wfCoord(other) && len(c.Vec) == len(other.Vec)
+//@   ensures at_least_both_heights [C21]: d >= c.Height+other.Height
+//@   ensures coordinates_untouched [C21]: c.Height == old(c.Height) && other.Height == old(other.Height) && c.Adjustment == old(c.Adjustment) && other.Adjustment == old(other.Adjustment)
 //@ end
+// (coordinates of different dimensionality are not compared: the precondition is what IsCompatibleWith tests, and
+// with it the dimensionality panic is unreachable -- the safety obligation of this function)
 //@ func (c *Coordinate) DistanceTo(other *Coordinate) (d time.Duration)
 //@   requires wf: wfCoord(c) && wfCoord(other) && len(c.Vec) == len(other.Vec)
+//@   ensures non_negative [C21]: c.Height >= 0 && other.Height >= 0 ==> d >= 0
 //@ end
 //@ func (c *Coordinate) ApplyForce(config *Config, force float64, other *Coordinate) (r *Coordinate)
 //@   requires wf: wfCoord(c) && wfCoord(other) && config != nil && len(c.Vec) == len(other.Vec) && len(c.Vec) > 0
